@@ -16,12 +16,16 @@
 (* were accepted are exactly 0 .. n-1, each used once, and a failed write  *)
 (* leaves no trace -- otherwise the receiver's ordered stream stalls for   *)
 (* ever on the missing number.  UseLock = FALSE is the negative control    *)
-(* (TLC must find the hole); the trace specification WriteSeqTrace checks  *)
+(* (TLC must find the hole) in both modes: Blocking (seeded change C20)    *)
+(* and non-blocking (the pinned code: defect F24, found on the real code   *)
+(* by the family mw-shut); the trace specification WriteSeqTrace checks    *)
 (* the same law (Gapless) on histories of real concurrent writers.         *)
 (***************************************************************************)
 EXTENDS WriteSeqLaw, TLC
 
-CONSTANTS Writers, MaxCalls, UseLock
+CONSTANTS Writers, MaxCalls,
+          Blocking,   \* blocking-write mode: a send waits while another write is pending and may time out
+          UseLock     \* the per-stream write lock is taken (code as fixed: always; pinned: only when Blocking)
 
 VARIABLES seq,        \* the stream's next sequence number
           wlock,      \* holder of the write lock or 0
@@ -29,42 +33,45 @@ VARIABLES seq,        \* the stream's next sequence number
           pc,         \* per writer: "idle" | "locked" | "taken" | "failed" | "unlock"
           mine,       \* per writer: the number taken by the call in progress
           calls,      \* per writer: calls started
-          queued      \* set of <<number, writer, call>> accepted for transmission
-vars == <<seq, wlock, pending, pc, mine, calls, queued>>
+          queued,     \* set of <<number, writer, call>> accepted for transmission
+          est         \* the association is in the established state (Shutdown / Close end it, once)
+vars == <<seq, wlock, pending, pc, mine, calls, queued, est>>
 
 Init == /\ seq = 0 /\ wlock = 0 /\ pending = FALSE
         /\ pc = [w \in Writers |-> "idle"] /\ mine = [w \in Writers |-> -1]
-        /\ calls = [w \in Writers |-> 0] /\ queued = {}
+        /\ calls = [w \in Writers |-> 0] /\ queued = {} /\ est = TRUE
 
 Begin(w) == /\ pc[w] = "idle" /\ calls[w] < MaxCalls
             /\ IF UseLock THEN wlock = 0 /\ wlock' = w ELSE UNCHANGED wlock
             /\ calls' = [calls EXCEPT ![w] = @ + 1]
             /\ pc' = [pc EXCEPT ![w] = "locked"]
-            /\ UNCHANGED <<seq, pending, mine, queued>>
+            /\ UNCHANGED <<seq, pending, mine, queued, est>>
 Packetize(w) == /\ pc[w] = "locked"
                 /\ mine' = [mine EXCEPT ![w] = seq] /\ seq' = seq + 1
                 /\ pc' = [pc EXCEPT ![w] = "taken"]
-                /\ UNCHANGED <<wlock, pending, calls, queued>>
-SendOk(w) == /\ pc[w] = "taken" /\ ~pending
-             /\ pending' = TRUE
+                /\ UNCHANGED <<wlock, pending, calls, queued, est>>
+SendOk(w) == /\ pc[w] = "taken" /\ est /\ (Blocking => ~pending)
+             /\ pending' = (Blocking \/ pending)
              /\ queued' = queued \cup {<<mine[w], w, calls[w]>>}
              /\ pc' = [pc EXCEPT ![w] = "unlock"]
-             /\ UNCHANGED <<seq, wlock, mine, calls>>
-SendTimeout(w) == /\ pc[w] = "taken" /\ pending          \* the deadline expires while waiting
+             /\ UNCHANGED <<seq, wlock, mine, calls, est>>
+SendTimeout(w) == /\ pc[w] = "taken" /\ ((Blocking /\ pending) \/ ~est)   \* the deadline expires while waiting, or the state check fails
                   /\ pc' = [pc EXCEPT ![w] = "failed"]
-                  /\ UNCHANGED <<seq, wlock, pending, mine, calls, queued>>
+                  /\ UNCHANGED <<seq, wlock, pending, mine, calls, queued, est>>
 Rollback(w) == /\ pc[w] = "failed"
                /\ seq' = seq - 1
                /\ pc' = [pc EXCEPT ![w] = "unlock"]
-               /\ UNCHANGED <<wlock, pending, mine, calls, queued>>
+               /\ UNCHANGED <<wlock, pending, mine, calls, queued, est>>
 Unlock(w) == /\ pc[w] = "unlock"
              /\ wlock' = IF UseLock THEN 0 ELSE wlock
              /\ pc' = [pc EXCEPT ![w] = "idle"] /\ mine' = [mine EXCEPT ![w] = -1]
-             /\ UNCHANGED <<seq, pending, calls, queued>>
+             /\ UNCHANGED <<seq, pending, calls, queued, est>>
 Drain == /\ pending /\ pending' = FALSE
-         /\ UNCHANGED <<seq, wlock, pc, mine, calls, queued>>
+         /\ UNCHANGED <<seq, wlock, pc, mine, calls, queued, est>>
+\* Shutdown / Close: the association leaves the established state; later sends fail on the state check
+Leave == /\ est /\ est' = FALSE /\ UNCHANGED <<seq, wlock, pending, pc, mine, calls, queued>>
 
-Next == Drain \/ \E w \in Writers : Begin(w) \/ Packetize(w) \/ SendOk(w) \/ SendTimeout(w) \/ Rollback(w) \/ Unlock(w)
+Next == Drain \/ Leave \/ \E w \in Writers : Begin(w) \/ Packetize(w) \/ SendOk(w) \/ SendTimeout(w) \/ Rollback(w) \/ Unlock(w)
 Spec == Init /\ [][Next]_vars
 
 Quiescent == \A w \in Writers : pc[w] = "idle"
